@@ -205,7 +205,11 @@ pub fn dump_config(gc: &GrammarConfig) -> String {
 
 fn err_class(e: &anyhow::Error) -> String {
     let s = format!("{e:?}");
-    let c = if s.contains("Failed parsing") || s.contains("SyntaxError") || s.contains("syntax") {
+    let c = if s.contains("Invalid token") {
+        "invalid-token-name"
+    } else if s.contains("Multiple token aliases") {
+        "alias-conflict"
+    } else if s.contains("Syntax error") {
         "syntax"
     } else if s.contains("not found") {
         "unresolved-name"
@@ -245,6 +249,19 @@ fn fix_body(b: &mut String) {
     if b.ends_with('\\') {
         b.push('x');
     }
+}
+
+fn fix_quote(b: &mut String) {
+    let mut o = String::with_capacity(b.len() + 2);
+    let mut escaped = false;
+    for c in b.chars() {
+        if c == '"' && !escaped {
+            o.push('\\');
+        }
+        escaped = c == '\\' && !escaped;
+        o.push(c);
+    }
+    *b = o;
 }
 
 pub fn sanitize(gc: &mut GrammarConfig, ids: &str) {
@@ -322,6 +339,31 @@ pub fn sanitize(gc: &mut GrammarConfig, ids: &str) {
                     }
                 }
             }),
+            // F25h: a single-terminal alternative of a non-terminal with several productions: rendered as
+            // a production of its own it reads as a token alias (conflict with the real alias of the same
+            // terminal; chosen as the `%on`/`%skip` name of the terminal)
+            "F25h" => {
+                let lhs: Vec<String> = gc.cfg.pr.iter().map(|p| p.get_n()).collect();
+                for p in gc.cfg.pr.iter_mut() {
+                    let n = p.get_n();
+                    if p.1.len() == 1 && matches!(p.1[0], Symbol::T(Terminal::Trm(..))) && lhs.iter().filter(|l| **l == n).count() > 1 {
+                        let c = p.1[0].clone();
+                        p.1.push(c);
+                    }
+                }
+            }
+            // F25g: comment delimiter containing an unescaped `"` (rendered inside "…")
+            "F25g" => {
+                for sc in gc.scanner_configurations.iter_mut() {
+                    for c in sc.line_comments.iter_mut() {
+                        fix_quote(c);
+                    }
+                    for (a, b) in sc.block_comments.iter_mut() {
+                        fix_quote(a);
+                        fix_quote(b);
+                    }
+                }
+            }
             // F25f: terminal whose user type is spelled like a non-terminal that has a %nt_type: printed
             // as ` : %nt_type`
             "F25f" => for_each_symbol(gc, &mut |s| {
@@ -529,30 +571,39 @@ const REGEX_BODIES: &[&str] = &[
     "@", ":", "<", "\\\\\\/", "a|b", "日本", "\\.",
 ];
 
-fn body_of(rng: &mut Rng, kind: usize) -> &'static str {
-    match kind {
-        0 => *rng.pick(LEGACY_BODIES),
-        1 => *rng.pick(RAW_BODIES),
-        _ => *rng.pick(REGEX_BODIES),
+fn body_of(rng: &mut Rng, kind: usize, tame: bool) -> &'static str {
+    let mut b = "";
+    for _ in 0..8 {
+        b = match kind {
+            0 => *rng.pick(LEGACY_BODIES),
+            1 => *rng.pick(RAW_BODIES),
+            _ => *rng.pick(REGEX_BODIES),
+        };
+        // a body ending in a backslash swallows the text up to the next delimiter character (F25d): such
+        // documents are mostly rejected outright, keep them rare
+        if !b.ends_with('\\') || (!tame && rng.chance(1, 8)) {
+            break;
+        }
     }
+    b
 }
 
 fn delim_of(kind: usize) -> char {
     ['"', '\'', '/'][kind]
 }
 
-fn literal(rng: &mut Rng) -> String {
+fn literal(rng: &mut Rng, tame: bool) -> String {
     let k = rng.below(3);
     let d = delim_of(k);
-    format!("{d}{}{d}", body_of(rng, k))
+    format!("{d}{}{d}", body_of(rng, k, tame))
 }
 
 const TITLES: &[&str] = &["g", "A \\\"quoted\\\" title", "back\\\\slash", "it's", "sl/ash", "\\u{41}", "日本", "", " ", "%start", "a // b", "x /* y */"];
 const TYPES: &[&str] = &["a::B", "crate::m::T", "T", "Alias", "Alias2", "x::Y", "N0", "N1", "Tm0"];
 const MEMBERS: &[&str] = &["m", "name", "x_1", "S", "T0"];
 
-/// comment delimiter literals (in any of the three quotings)
-const LINE_COMMENTS: &[&str] = &["'//'", "'#'", "'--'", "\"//\"", "/\\/\\//", "\"\\#\"", "'%'", "';'", "'\\\\'", "/REM/"];
+/// comment delimiter literals (in any of the three quotings); the last three trigger F25d / F25g
+const LINE_COMMENTS: &[&str] = &["'//'", "'#'", "'--'", "\"//\"", "/\\/\\//", "\"\\#\"", "'%'", "';'", "/REM/", "\"\\\"\"", "'\\\\'", "'\"'"];
 const BLOCK_COMMENTS: &[(&str, &str)] = &[
     ("'/*'", "'*/'"),
     ("'(*'", "'*)'"),
@@ -561,24 +612,59 @@ const BLOCK_COMMENTS: &[(&str, &str)] = &[
     ("'<!--'", "'-->'"),
     ("/\\/\\*/", "/\\*\\//"),
     ("'#|'", "'|#'"),
+    ("'\"\"\"'", "'\"\"\"'"),
 ];
 
 struct Doc {
     text: String,
 }
 
-fn ast_control(rng: &mut Rng, for_terminal: bool) -> String {
-    let _ = for_terminal;
+/// What a document may use. `tame` documents avoid the triggers of the listed findings F25a–F25g
+/// (so that most explored documents are judged on the full round trip): user types on
+/// non-terminals only through declared aliases, no `^` on a terminal with lookahead, %nt_type
+/// types that are no alias targets, no body ending in a backslash, no %t_type together with
+/// `<INITIAL>` / a type equal to it, no type spelled like a non-terminal, no `"` in comment delimiters.
+struct Pools {
+    tame: bool,
+    aliases: Vec<&'static str>,
+    t_type: Option<&'static str>,
+}
+
+fn ast_control(rng: &mut Rng, for_terminal: bool, has_la: bool, p: &Pools) -> String {
+    let ty = |rng: &mut Rng| -> Option<String> {
+        if !p.tame {
+            return Some(rng.pick(TYPES).to_string());
+        }
+        if for_terminal {
+            let mut pool: Vec<&str> = vec!["a::B", "crate::m::T", "x::Y", "q::R"];
+            pool.extend(p.aliases.iter());
+            let t = *rng.pick(&pool);
+            if Some(t) == p.t_type { None } else { Some(t.to_string()) }
+        } else if p.aliases.is_empty() {
+            None
+        } else {
+            Some(rng.pick(&p.aliases).to_string())
+        }
+    };
     match rng.below(10) {
-        0 | 1 => "^".to_string(),
+        0 | 1 => {
+            if p.tame && for_terminal && has_la {
+                String::new()
+            } else {
+                "^".to_string()
+            }
+        }
         2 => format!("@{}", rng.pick(MEMBERS)),
-        3 => format!(" : {}", rng.pick(TYPES)),
-        4 => format!("@{} : {}", rng.pick(MEMBERS), rng.pick(TYPES)),
+        3 => ty(rng).map(|t| format!(" : {t}")).unwrap_or_default(),
+        4 => match ty(rng) {
+            Some(t) => format!("@{} : {t}", rng.pick(MEMBERS)),
+            None => format!("@{}", rng.pick(MEMBERS)),
+        },
         _ => String::new(),
     }
 }
 
-fn gen_doc(rng: &mut Rng) -> Doc {
+fn gen_doc(rng: &mut Rng, tame: bool) -> Doc {
     let nmodes = 1 + [0, 0, 1, 1, 2][rng.below(5)];
     let mode_names: Vec<String> = (0..nmodes).map(|i| if i == 0 { "INITIAL".to_string() } else { format!("M{i}") }).collect();
     let nterms = rng.range(1, 5);
@@ -587,10 +673,10 @@ fn gen_doc(rng: &mut Rng) -> Doc {
     // prolog declarations in random order
     let mut decls: Vec<String> = vec![];
     if rng.chance(2, 3) {
-        decls.push(format!("%title \"{}\"\n", rng.pick(TITLES)));
+        decls.push(format!("%title \"{}\"\n", rng.pick(if tame { &TITLES[3..] } else { TITLES })));
     }
     if rng.chance(1, 2) {
-        decls.push(format!("%comment \"{}\"\n", rng.pick(TITLES)));
+        decls.push(format!("%comment \"{}\"\n", rng.pick(if tame { &TITLES[3..] } else { TITLES })));
     }
     match rng.below(4) {
         0 => decls.push("%grammar_type 'LALR(1)'\n".to_string()),
@@ -598,22 +684,27 @@ fn gen_doc(rng: &mut Rng) -> Doc {
         2 => decls.push("%grammar_type 'lalr(1)'\n".to_string()),
         _ => {}
     }
+    let mut pools = Pools { tame, aliases: vec![], t_type: None };
     for (i, al) in ["Alias", "Alias2"].iter().enumerate() {
         if rng.chance(1, 3) {
             decls.push(format!("%user_type {al} = {}\n", ["a::B", "x::Y", "crate::m::T"][(i + rng.below(2)) % 3]));
+            pools.aliases.push(al);
         }
     }
     for i in 0..nnts {
         if rng.chance(1, 4) {
-            decls.push(format!("%nt_type N{i} = {}\n", rng.pick(TYPES)));
+            decls.push(format!("%nt_type N{i} = {}\n", if tame { *rng.pick(&["n::T1", "n::T2"]) } else { *rng.pick(TYPES) }));
         }
     }
     if rng.chance(1, 8) {
-        decls.push(format!("%nt_type Tm0 = {}\n", rng.pick(TYPES)));
+        decls.push(format!("%nt_type Tm0 = {}\n", if tame { "n::T3" } else { *rng.pick(TYPES) }));
     }
     if rng.chance(1, 4) {
-        decls.push(format!("%t_type {}\n", rng.pick(TYPES)));
+        let t = if tame { "t::T" } else { *rng.pick(TYPES) };
+        decls.push(format!("%t_type {t}\n"));
+        pools.t_type = Some(t);
     }
+    let initial_list_ok = !(tame && pools.t_type.is_some());
     // terminals with their states
     let mut tstates: Vec<Vec<usize>> = vec![];
     for _ in 0..nterms {
@@ -633,10 +724,11 @@ fn gen_doc(rng: &mut Rng) -> Doc {
     let directives = |rng: &mut Rng, me: usize, ind: &str| -> Vec<String> {
         let mut d = vec![];
         for _ in 0..[0, 0, 1, 1, 2][rng.below(5)] {
-            d.push(format!("{ind}%line_comment {}\n", rng.pick(LINE_COMMENTS)));
+            let c = if tame || !rng.chance(1, 6) { *rng.pick(&LINE_COMMENTS[..LINE_COMMENTS.len() - 2]) } else { *rng.pick(LINE_COMMENTS) };
+            d.push(format!("{ind}%line_comment {c}\n"));
         }
         for _ in 0..[0, 0, 1, 1, 2][rng.below(5)] {
-            let (a, b) = *rng.pick(BLOCK_COMMENTS);
+            let (a, b) = if tame || !rng.chance(1, 6) { *rng.pick(&BLOCK_COMMENTS[..BLOCK_COMMENTS.len() - 1]) } else { *rng.pick(BLOCK_COMMENTS) };
             d.push(format!("{ind}%block_comment {a} {b}\n"));
         }
         if rng.chance(1, 3) {
@@ -697,6 +789,9 @@ fn gen_doc(rng: &mut Rng) -> Doc {
     }
     s.push_str("%%\n");
     // productions: S mentions everything once, then random alternatives
+    let lookahead = |rng: &mut Rng| -> String {
+        if rng.chance(1, 5) { format!(" {} {}", if rng.chance(1, 2) { "?=" } else { "?!" }, literal(rng, tame)) } else { String::new() }
+    };
     let inline_term = |rng: &mut Rng| -> String {
         let st = if nmodes > 1 && rng.chance(1, 3) {
             let mut v: Vec<usize> = (0..nmodes).filter(|_| rng.chance(1, 2)).collect();
@@ -706,24 +801,28 @@ fn gen_doc(rng: &mut Rng) -> Doc {
             if rng.chance(1, 4) {
                 v.reverse();
             }
-            format!("<{}>", v.iter().map(|i| mode_names[*i].clone()).collect::<Vec<_>>().join(", "))
-        } else if rng.chance(1, 10) {
+            if v == vec![0] && !initial_list_ok {
+                String::new()
+            } else {
+                format!("<{}>", v.iter().map(|i| mode_names[*i].clone()).collect::<Vec<_>>().join(", "))
+            }
+        } else if rng.chance(1, 10) && initial_list_ok {
             "<INITIAL>".to_string()
         } else {
             String::new()
         };
-        let la = if rng.chance(1, 5) { format!(" {} {}", if rng.chance(1, 2) { "?=" } else { "?!" }, literal(rng)) } else { String::new() };
-        format!("{st}{}{la}{}", literal(rng), ast_control(rng, true))
+        let la = lookahead(rng);
+        format!("{st}{}{la}{}", literal(rng, tame), ast_control(rng, true, !la.is_empty(), &pools))
     };
     let symbol = |rng: &mut Rng, level: usize| -> String {
         match rng.below(6) {
             0 | 1 => inline_term(rng),
-            2 | 3 => format!("Tm{}{}", rng.below(nterms), ast_control(rng, false)),
+            2 | 3 => format!("Tm{}{}", rng.below(nterms), ast_control(rng, false, false, &pools)),
             _ => {
                 if level < nnts {
-                    format!("N{}{}", rng.range(level, nnts - 1), ast_control(rng, false))
+                    format!("N{}{}", rng.range(level, nnts - 1), ast_control(rng, false, false, &pools))
                 } else {
-                    format!("Tm{}{}", rng.below(nterms), ast_control(rng, false))
+                    format!("Tm{}{}", rng.below(nterms), ast_control(rng, false, false, &pools))
                 }
             }
         }
@@ -743,27 +842,51 @@ fn gen_doc(rng: &mut Rng) -> Doc {
         v.join(" ")
     };
     let all: Vec<String> = (0..nnts).map(|i| format!("N{i}")).chain((0..nterms).map(|i| format!("Tm{i}"))).collect();
-    s.push_str(&format!("S: {}", all.join(" ")));
+    let mut prods: Vec<String> = vec![];
+    let mut p = format!("S: {}", all.join(" "));
     for _ in 0..rng.range(0, 2) {
-        s.push_str(&format!("\n | {}", alt(rng, 0)));
+        p.push_str(&format!("\n | {}", alt(rng, 0)));
     }
-    s.push_str(";\n");
+    p.push_str(";\n");
+    prods.push(p);
     for i in 0..nnts {
-        s.push_str(&format!("N{i}: {}", symbol(rng, i + 1)));
+        let mut p = format!("N{i}: {}", symbol(rng, i + 1));
         for _ in 0..rng.range(0, 2) {
-            s.push_str(&format!(" | {}", alt(rng, i + 1)));
+            p.push_str(&format!(" | {}", alt(rng, i + 1)));
         }
-        s.push_str(";\n");
+        p.push_str(";\n");
+        prods.push(p);
     }
+    // primary terminals: pairwise different bodies (parol rejects token aliases with equal expansion)
+    let mut bodies: Vec<String> = vec![];
     for (i, st) in tstates.iter().enumerate() {
-        let stt = if st == &vec![0] && rng.chance(2, 3) {
+        let stt = if st == &vec![0] && (rng.chance(2, 3) || !initial_list_ok) {
             String::new()
         } else {
             format!("<{}>", st.iter().map(|s| mode_names[*s].clone()).collect::<Vec<_>>().join(", "))
         };
-        let la = if rng.chance(1, 5) { format!(" {} {}", if rng.chance(1, 2) { "?=" } else { "?!" }, literal(rng)) } else { String::new() };
-        let ctl = if rng.chance(1, 4) { ast_control(rng, true) } else { String::new() };
-        s.push_str(&format!("Tm{i}: {stt}{}{la}{ctl};\n", literal(rng)));
+        let la = lookahead(rng);
+        let ctl = if rng.chance(1, 4) { ast_control(rng, true, !la.is_empty(), &pools) } else { String::new() };
+        let mut lit = literal(rng, tame);
+        for _ in 0..8 {
+            let b = lit[1..lit.len() - 1].to_string();
+            if !bodies.contains(&b) {
+                break;
+            }
+            lit = literal(rng, tame);
+        }
+        bodies.push(lit[1..lit.len() - 1].to_string());
+        prods.push(format!("Tm{i}: {stt}{lit}{la}{ctl};\n"));
+    }
+    // production order is free (the start symbol is declared)
+    if rng.chance(1, 2) {
+        for i in (1..prods.len()).rev() {
+            let j = rng.below(i + 1);
+            prods.swap(i, j);
+        }
+    }
+    for p in &prods {
+        s.push_str(p);
     }
     Doc { text: s }
 }
@@ -782,6 +905,15 @@ const FIXED_DOCS: &[&str] = &[
     "%start S %% S: 'a' ?= 'b' | \"c\" ?! /d+/ @m | /e/ ?= \"f\" : x::Y;",
     "%start S %% S: \"a\\\"b\" 'it\\'s' /a\\/b/;",
     "%start S %% S: { 'a' } [ 'b' ] ( 'c' | 'd' );",
+    // witnesses of the listed findings F25a..F25h (one each; see checks/c25.py)
+    "%start S %% S: \"a\" B : MyType; B: \"b\";",
+    "%start S %% S: 'a' ?= 'b'^;",
+    "%start S %user_type A = x::Y %nt_type B = x::Y %% S: B^ \"c\"; B: \"b\";",
+    "%start S %title \"x\\\\\" %line_comment '//' %% S: 'a';",
+    "%start S %t_type x::Y %% S: <INITIAL>\"a\";",
+    "%start S %nt_type B = x::Y %% S: \"a\" : B B; B: \"b\";",
+    "%start S %block_comment '\"\"\"' '\"\"\"' %% S: 'a';",
+    "%start S %on T %enter INITIAL %% S: T X; T: 'a'; X: 'a' | 'b' 'c';",
 ];
 
 fn repo_root() -> String {
@@ -838,8 +970,8 @@ pub fn generate_rt(seed: u64, thorough: bool) -> Vec<String> {
         }
     }
     let n = if thorough { 6000 } else { 700 };
-    for _ in 0..n {
-        docs.push(gen_doc(&mut rng).text);
+    for i in 0..n {
+        docs.push(gen_doc(&mut rng, i % 4 != 3).text);
     }
     for d in docs {
         let h = hex(&d);
@@ -852,7 +984,7 @@ pub fn generate_rt(seed: u64, thorough: bool) -> Vec<String> {
 fn rand_body(rng: &mut Rng, kind: usize) -> String {
     let alphabet: &[&str] = &["a", "b", "\\", "\"", "'", "/", "*", " ", "\\\\", "\\\"", "\\'", "\\/", "é", "^", "@", ":", "<", ">", "?=", "\n", "日", "{", "}", "%"];
     if rng.chance(1, 3) {
-        return body_of(rng, kind).to_string();
+        return body_of(rng, kind, false).to_string();
     }
     let n = rng.range(0, 6);
     (0..n).map(|_| *rng.pick(alphabet)).collect()
